@@ -4,7 +4,7 @@ from __future__ import annotations
 import time, subprocess, tempfile, os
 import z3
 
-DISCHARGED, REFUTED, UNKNOWN, COVERED, VACUOUS = "discharged", "refuted", "unknown", "covered", "vacuous"
+DISCHARGED, REFUTED, UNKNOWN, COVERED, VACUOUS, FAILED = "discharged", "refuted", "unknown", "covered", "vacuous", "failed"
 
 
 def _mk(obl, axioms, timeout_ms, ematching_only):
@@ -51,9 +51,21 @@ def check(obl, axioms=(), timeout_ms=10000, want_smt2=False):
         except Exception as ex:  # pragma: no cover
             out["model"] = f"<model unavailable: {ex}>"
     else:
-        out["status"] = UNKNOWN
-        out["reason"] = s.reason_unknown()
-    if want_smt2 or out["status"] in (REFUTED, UNKNOWN):
+        reason = s.reason_unknown()
+        out["reason"] = reason
+        if any(w in reason for w in ("timeout", "canceled", "resource", "memory", "interrupted")):
+            out["status"] = UNKNOWN            # budget exhausted: undecided
+        else:
+            # The solver stopped without a proof and without exhausting its budget ("incomplete
+            # quantifiers / theory"): instantiation saturated and a candidate counter-model exists.
+            # This is what deductive verifiers report as a failed obligation (Boogie/Dafny convention);
+            # the candidate model is attached but is not guaranteed to be a real model.
+            out["status"] = FAILED
+            try:
+                out["model"] = "CANDIDATE (not guaranteed): \n" + _model_text(s.model())
+            except Exception as ex:
+                out["model"] = f"<no candidate model: {ex}>"
+    if want_smt2 or out["status"] in (REFUTED, UNKNOWN, FAILED):
         try:
             out["smt2"] = s.to_smt2()
         except Exception:
